@@ -58,16 +58,16 @@ type c17Root struct{ cwd, root, pos string }
 
 // root spellings with the position (relative to B) they denote for that working directory
 var c17Roots = []c17Root{
-	{"top", "@/top/root", "top/root"},       // absolute
-	{"top", "root", "top/root"},             // relative
-	{"top", ".", "top"},                     // "."
-	{"top/root", ".", "top/root"},           // "." with the root as working directory
-	{"top", "root/", "top/root"},            // trailing slash
-	{"top", "@/top/root/", "top/root"},      // absolute, trailing slash
-	{"top", "root/sub", "top/root/sub"},     // nested
+	{"top", "@/top/root", "top/root"},   // absolute
+	{"top", "root", "top/root"},         // relative
+	{"top", ".", "top"},                 // "."
+	{"top/root", ".", "top/root"},       // "." with the root as working directory
+	{"top", "root/", "top/root"},        // trailing slash
+	{"top", "@/top/root/", "top/root"},  // absolute, trailing slash
+	{"top", "root/sub", "top/root/sub"}, // nested
 	{"top", "@/top/root/sub", "top/root/sub"},
-	{"top", "root/sub/..", "top/root"},      // containing ".."
-	{"top", "../top/root", "top/root"},      // leading ".."
+	{"top", "root/sub/..", "top/root"}, // containing ".."
+	{"top", "../top/root", "top/root"}, // leading ".."
 	{"top", "@/top/rootX/../root", "top/root"},
 	{"top", "./root", "top/root"},
 	{"top", "root//sub/./", "top/root/sub"}, // repeated separators, "."
@@ -80,6 +80,8 @@ var c17Roots = []c17Root{
 
 func c17Setup() {
 	wd, err := os.Getwd()
+	check(err)
+	wd, err = filepath.EvalSymlinks(wd) // the kernel's name of the directory (compared with getcwd below)
 	check(err)
 	c17Base, err = os.MkdirTemp(wd, "c17-tree-")
 	check(err)
@@ -224,9 +226,9 @@ func init() {
 		NoRestartOnPanic: true,
 		Setup:            c17Setup,
 		Gen: func(g *Gen) {
-			maxLen, nRandom, pLen, impLen := 5, 4000, 3, 3
+			maxLen, nRandom, pLen, impLen, nRoots := 5, 4000, 3, 3, 1000
 			if g.Thorough() {
-				maxLen, nRandom, pLen, impLen = 6, 100000, 4, 4
+				maxLen, nRandom, pLen, impLen, nRoots = 6, 100000, 4, 4, 5000
 			}
 			// directed cases first: the suite's own paths, classic escapes
 			top := c17Roots[0]
@@ -246,12 +248,24 @@ func init() {
 				g.Count("directed")
 				g.Emit(rcase("R", d.r, d.p, true, 0))
 			}
+			// every file addressed absolutely (and absolutely with a detour), for every listed root
+			for _, r := range c17Roots {
+				for _, f := range c17Files {
+					for _, p := range []string{"@/" + f, "@/top/root/../../" + f, "@//" + f + "/."} {
+						g.Count("directed absolute")
+						g.Emit(rcase("R", r, p, true, 0))
+					}
+				}
+			}
 			// (a) path primitives: all pairs of strings of <= pLen elements over a small alphabet
-			var strs []string
+			var strs, strsB []string // b ranges over the strings of <= 3 elements
 			palpha := []string{"a", "b", ".", "..", ""}
 			var rec func(cur []string)
 			rec = func(cur []string) {
 				strs = append(strs, strings.Join(cur, "/"))
+				if len(cur) <= 3 {
+					strsB = append(strsB, strings.Join(cur, "/"))
+				}
 				if len(cur) == pLen {
 					return
 				}
@@ -261,7 +275,7 @@ func init() {
 			}
 			rec(nil)
 			for _, a := range strs {
-				for _, b := range strs {
+				for _, b := range strsB {
 					g.Count("primitives exhaustive")
 					g.Emit("P " + hx(a) + " " + hx(b))
 				}
@@ -307,6 +321,39 @@ func init() {
 					}
 				}
 				pre(nil)
+			}
+			// random root spellings; the position each denotes is asked from the kernel (chdir + getcwd),
+			// not computed with path/filepath; every path of <= 3 elements for each
+			rootAlpha := []string{"root", "sub", "..", ".", "", "rootX", "a.b", "top", "root", ".."}
+			cwds := []string{"top", "top/root", "top/root/sub", ""}
+			for i := 0; i < nRoots; i++ {
+				cwd := g.R.Pick(cwds)
+				var segs []string
+				for k := 1 + g.R.Intn(5); k > 0; k-- {
+					segs = append(segs, g.R.Pick(rootAlpha))
+				}
+				root := strings.Join(segs, "/")
+				if g.R.Intn(4) == 0 {
+					root = "@/" + root
+				}
+				if os.Chdir(filepath.Join(c17Base, cwd)) != nil || os.Chdir(c17Subst(root)) != nil {
+					g.Count("random root: not a directory (skipped)")
+					continue
+				}
+				wd, err := os.Getwd()
+				if err != nil || (wd != c17Base && !strings.HasPrefix(wd, c17Base+"/")) {
+					g.Count("random root: above the tree (skipped)")
+					continue
+				}
+				r := c17Root{cwd, root, strings.TrimPrefix(strings.TrimPrefix(wd, c17Base), "/")}
+				for L := 0; L <= 2; L++ {
+					g.Count("resolve random-root lines")
+					g.Emit(rcase("R", r, "", false, L))
+				}
+				for _, a := range c17Alphabet {
+					g.Count("resolve random-root lines")
+					g.Emit(rcase("R", r, a, true, 2))
+				}
 			}
 			// random longer paths (alphabet elements and arbitrary byte elements)
 			for i := 0; i < nRandom; i++ {
